@@ -429,7 +429,9 @@ func verifLemma_C12_tag_overlay_reads(v string, w string, x string) {
 	base1 := &RelationFeature{RelationID: id1, Tags: b6.Tags{{Key: "a", Value: b6.NewStringExpression("1")}, {Key: "b", Value: b6.NewStringExpression("2")}}}
 	base2 := &RelationFeature{RelationID: id2, Tags: b6.Tags{{Key: "a", Value: b6.NewStringExpression("3")}}}
 	m := NewModifiedTags()
-	f1, f2 := m.WrapFeature(base1), m.WrapFeature(base2)
+	// f1 goes through the relation wrapper (a world's relation feature), f2 through the
+	// generic one
+	f1, f2 := m.WrapFeature(WrapFeature(base1, nil)), m.WrapFeature(base2)
 	verifrt.Assert(f1.Get("a").Value.String() == "1" && f1.Get("b").Value.String() == "2" && !f1.Get("c").IsValid(), "untouched-feature-reads-as-the-base")
 
 	m.ModifyOrAddTag(id1.FeatureID(), b6.Tag{Key: "a", Value: b6.NewStringExpression(v)})
@@ -451,6 +453,6 @@ func verifLemma_C12_tag_overlay_reads(v string, w string, x string) {
 	m.RemoveTag(id2.FeatureID(), "a")
 	verifrt.Assert(!f2.Get("a").IsValid() && f1.Get("a").Value.String() == v, "remove-on-the-other-feature-only")
 
-	late := m.WrapFeature(base1)
+	late := m.WrapFeature(WrapFeature(base1, nil))
 	verifrt.Assert(late.Get("a").Value.String() == v && late.Get("b").Value.String() == x && late.Get("c").Value.String() == w, "a-feature-wrapped-later-reads-the-same")
 }
